@@ -286,8 +286,39 @@ def utf8Decode : Bytes → Option Str
       | _ => none
     else none
 
-/-- parse stored bytes as JSON text -/
-def parseJsonBytes (b : Bytes) : Option JVal := (utf8Decode b).bind parseJson
+/-! ### Nesting depth and the parser's recursion limit
+
+  `serde_json` parses with a recursion limit: the deserializer starts with `remaining_depth = 128`,
+  decrements it when it enters an array or an object and fails (`RecursionLimitExceeded`) when it
+  reaches 0 - a text nested 128 levels or more is refused, 127 levels are read.  The serialiser has
+  no limit.  Everything the library stores is read back through this parser. -/
+
+mutual
+/-- number of nested containers: scalars 0, `[]` and `{}` 1, `[[1]]` 2 -/
+def JVal.depth : JVal → Nat
+  | .arr l => JVal.depthL l + 1
+  | .obj o => JVal.depthO o + 1
+  | _ => 0
+def JVal.depthL : List JVal → Nat
+  | [] => 0
+  | v :: t => max v.depth (JVal.depthL t)
+def JVal.depthO : JObj → Nat
+  | [] => 0
+  | (_, v) :: t => max v.depth (JVal.depthO t)
+end
+
+/-- `serde_json`'s recursion limit -/
+def RECURSION_LIMIT : Nat := 128
+
+/-- `serde_json::from_str` as the library is built (recursion limit on): the text is read iff it is JSON
+    nested less than 128 levels -/
+def parseJsonLim (s : Str) : Option JVal :=
+  match parseJson s with
+  | some v => if v.depth < RECURSION_LIMIT then some v else none
+  | none => none
+
+/-- parse stored bytes as JSON text (with the recursion limit of the real parser) -/
+def parseJsonBytes (b : Bytes) : Option JVal := (utf8Decode b).bind parseJsonLim
 
 def JVal.renderBytes (v : JVal) : Bytes := utf8 v.render
 
